@@ -134,6 +134,9 @@ func (d *floatDecoder) DecodeStream(s *Stream, depth int64, p unsafe.Pointer) er
 		return nil
 	}
 	str := *(*string)(unsafe.Pointer(&bytes))
+	if !validNumber(bytes) {
+		return errors.ErrSyntax(invalidNumberError(str), s.totalOffset())
+	}
 	f64, err := strconv.ParseFloat(str, d.bitSize)
 	if err != nil {
 		return errors.ErrSyntax(err.Error(), s.totalOffset())
@@ -156,6 +159,9 @@ func (d *floatDecoder) Decode(ctx *RuntimeContext, cursor, depth int64, p unsafe
 		return 0, errors.ErrUnexpectedEndOfJSON("float", cursor)
 	}
 	s := *(*string)(unsafe.Pointer(&bytes))
+	if !validNumber(bytes) {
+		return 0, errors.ErrSyntax(invalidNumberError(s), cursor)
+	}
 	f64, err := strconv.ParseFloat(s, d.bitSize)
 	if err != nil {
 		return 0, errors.ErrSyntax(err.Error(), cursor)
@@ -174,4 +180,51 @@ func (d *floatDecoder) DecodePath(ctx *RuntimeContext, cursor, depth int64) ([][
 		return [][]byte{nullbytes}, c, nil
 	}
 	return [][]byte{bytes}, c, nil
+}
+
+// invalidNumberError words the error as strconv.ParseFloat words it for the
+// literals it rejects itself.
+func invalidNumberError(s string) string {
+	return (&strconv.NumError{Func: "ParseFloat", Num: s, Err: strconv.ErrSyntax}).Error()
+}
+
+// validNumber reports whether b is a number literal of the JSON grammar
+// ( strconv.ParseFloat alone also accepts 01, 1., .5, 1.e1, +1, Inf, 1_0 ).
+func validNumber(b []byte) bool {
+	i := 0
+	if i < len(b) && b[i] == '-' {
+		i++
+	}
+	switch {
+	case i < len(b) && b[i] == '0':
+		i++
+	case i < len(b) && '1' <= b[i] && b[i] <= '9':
+		for i < len(b) && '0' <= b[i] && b[i] <= '9' {
+			i++
+		}
+	default:
+		return false
+	}
+	if i < len(b) && b[i] == '.' {
+		i++
+		if i >= len(b) || b[i] < '0' || '9' < b[i] {
+			return false
+		}
+		for i < len(b) && '0' <= b[i] && b[i] <= '9' {
+			i++
+		}
+	}
+	if i < len(b) && (b[i] == 'e' || b[i] == 'E') {
+		i++
+		if i < len(b) && (b[i] == '+' || b[i] == '-') {
+			i++
+		}
+		if i >= len(b) || b[i] < '0' || '9' < b[i] {
+			return false
+		}
+		for i < len(b) && '0' <= b[i] && b[i] <= '9' {
+			i++
+		}
+	}
+	return i == len(b)
 }
